@@ -88,7 +88,8 @@ type busWriter struct {
 }
 
 func (w *busWriter) Write(p []byte) (n int, err error) {
-	if uint32(len(p)) >= w.o+w.end {
+	// refuse writes that do not fit into what is left of the window:
+	if uint32(len(p)) > w.end-(w.o+w.start) {
 		err = io.ErrUnexpectedEOF
 		return
 	}
